@@ -36,7 +36,7 @@ PROP = dict(
 )
 
 MANIFEST = dict(
-    text="Coq (33 theorems, closed under the global context): truth_equiv / truth_equiv_bounded (a forced win under the third-repetition "
+    text="Coq (40 theorems, closed under the global context): truth_equiv / truth_equiv_bounded (a forced win under the third-repetition "
          "rule = membership in the history-free attractor, any game, with a depth bound and positions identified by Position.Equal); "
          "pn_invariant (every node of every tree the PN search loop of the code-shaped model Pn.v reaches: proof number 0 -> forced win, "
          "disproof number 0 -> not won on its line of play within MaxDepth) and pn_verdict_sound for the entry point pn_run (proven -> "
@@ -60,14 +60,18 @@ MANIFEST = dict(
          "(PnCong1-5: cinv = C01's invariant, <= 64 pieces, reserves = configuration - board, ply counter on the side of the opening the "
          "board shows; preserved by moves, established by tak.New), hence the two PN corollaries against the attractor without the "
          "congruence hypothesis for every replay from tak.New; position sets given by representatives up to the ply counter (DfpnRep3) make "
-         "games with slide cycles enumerable inside Coq (DfpnRep4: 657 classes, proven / disproven runs). The extracted models of prove/pn.go and prove/dfpn.go (incl. one solver reused over several positions) are replayed "
+         "games with slide cycles enumerable inside Coq (DfpnRep4: 657 classes, proven / disproven runs). dfpn_proven_move (DfpnMove.v): the "
+         "move DFPN returns with `proven` (entry.pv of the root: the move of the last child the root loop descended into), when of type <> 0, "
+         "is a generated legal move after which the attacker still has a forced win - a move of the attacker when the attacker is to move, a "
+         "reply of the defender (all of which are won) when the configured attacker is not to move; fresh and reused solvers. The two attractor "
+         "corollaries also for the PN-squared entry point pn2_run on every replay from tak.New (PnCong6.v). The extracted models of prove/pn.go and prove/dfpn.go (incl. one solver reused over several positions) are replayed "
          "against Prover.Prove (with and without PN-squared) / DFPNSolver.Prove (verdict and move at L1; proof numbers, depth, all counters "
          "and the trace of the second level at L2), and an independent "
          "retrograde solver of the complete reachable game graph judges every verdict and returned move of PN, PN-squared and DFPN.",
     ref='5.6', technique='Coq proof (truth = attractor; PN invariant and verdict soundness; DFPN proven and disproven soundness incl. reused solvers, over the code-shaped models) + extracted-model/implementation differential + exact retrograde oracle',
     note="Trusted: Coq kernel, extraction, transcription of prove/pn.go (Pn.v, Pn2.v) and prove/dfpn.go (validated by execution), generators, the "
-         "retrograde oracle (uses the rules engine to enumerate the graph). Not proved: the move returned by DFPN; the congruence for "
-         "games with more than 64 pieces (default 7x7, 8x8) and the two PN-squared twins of the PN corollaries (still conditional); the DFPN "
+         "retrograde oracle (uses the rules engine to enumerate the graph). Not proved: the congruence (hence the attractor corollaries) for "
+         "games with more than 64 pieces (default 7x7, 8x8); the zero Move that DFPN can return with `proven` carries no claim; the DFPN "
          "theorems carry NoCollision / C19 as hypotheses. The graph-history interaction of DFPN's repetition handling with its table was a "
          "real defect (known_findings.json reused-solver-wrong-disproven, repaired by 7a5b6bf); for a FRESH solver no wrong verdict was ever "
          "observed on Tak (~550k targeted runs) although the unrepaired algorithm is wrong on an abstract 19-node game graph "
